@@ -304,6 +304,9 @@ def density_data(c):
         return np.vstack([half, -half])[:n] if n > 1 else half
     if cls == "repeated":
         return np.repeat(unit_rows(rng.normal(size=(1, 3))), n, axis=0)
+    if cls == "equator":
+        ang = rng.uniform(0.0, 2.0 * np.pi, n)
+        return np.column_stack([np.cos(ang), np.sin(ang), np.zeros(n)])
     raise MachineryError(f"unknown data class {cls}")
 
 
@@ -355,7 +358,7 @@ def replay_dens(c, data=None, perm=None, signs=None):
             signs = rng.choice([-1.0, 1.0], size=len(d))
             signs[int(rng.integers(len(d)))] = -1.0
         signs = np.array(signs, dtype=float)
-        Ts = _density(stats, d * signs[:, None], c)[2]
+        Ts = _density(stats, d * signs[:, None] + 0.0, c)[2]      # "+ 0.0": a flipped zero component is written +0.0, not -0.0
         m["sign"] = mu(rel_dev(T, Ts)) if np.isfinite(Ts).all() else cap(float("nan"))
         info["signs"] = signs.tolist()
     return dict(kind="dens", axial=c["axial"], m=m), info
